@@ -10,7 +10,7 @@ MOD = "emu_base.math.brents_root_finding"
 # class invariant J: what every method may rely on between calls
 J = [
     "self.epsilon > 0",
-    "self.fa != 0",
+    "self.fa != 0 or self.a == self.b",      # both ordinates zero only on a collapsed bracket
     "self.fc != 0",
     "self.fa * self.fb <= 0",
     "abs(self.fb) <= abs(self.fa)",
@@ -40,7 +40,7 @@ def register(reg, prop="C19"):
                 "f_start": "real", "f_end": "real", "epsilon": "real"},
         setup=_ghost_bracket, fresh_self=True,
         requires=["start <= end", "f_start * f_end < 0", "epsilon > 0"],
-        ensures=["inv(self)", "self.fb != 0",
+        ensures=["inv(self)", "self.fa != 0 and self.fb != 0",
                  "self.lo0 == start and self.hi0 == end",
                  "min(self.a, self.b) == start and max(self.a, self.b) == end",
                  "(self.a == start and self.fa == f_start and self.b == end and self.fb == f_end) or "
@@ -52,7 +52,7 @@ def register(reg, prop="C19"):
     reg.add_contract(Contract(
         f"{MOD}:BrentsRootFinder.get_next_abscissa", property=prop,
         params={"self": "obj:BrentsRootFinder"},
-        requires=["inv(self)", "self.fb != 0"],
+        requires=["inv(self)", "self.a != self.b"],        # i.e. not converged
         modifies=["self.next_abscissa", "self.c", "self.d", "self.fc", "self.bisection"],
         returns="real",
         ensures=["min(self.a, self.b) <= result", "result <= max(self.a, self.b)",
@@ -62,18 +62,21 @@ def register(reg, prop="C19"):
                  "self.epsilon == old(self.epsilon)",
                  "self.lo0 == old(self.lo0) and self.hi0 == old(self.hi0)",
                  "self.current_guess == old(self.current_guess)",
-                 "self.c == self.b and self.fc == self.fb",
                  "inv(self)",
+                 # once b is an exact root it is queried again (no second zero elsewhere)
+                 "implies(self.fb == 0, result == self.b)",
+                 "implies(self.fb != 0, self.c == self.b and self.fc == self.fb)",
                  # a bisection step is the midpoint
-                 "implies(self.bisection, 2 * result == self.a + self.b)",
+                 "implies(self.fb != 0 and self.bisection, 2 * result == self.a + self.b)",
                  # an accepted interpolation step stays within 3/4 of the bracket from b
-                 "implies(not self.bisection, abs(result - self.b) < abs(3 * (self.a - self.b) / 4))"],
+                 "implies(self.fb != 0 and not self.bisection,"
+                 " abs(result - self.b) < abs(3 * (self.a - self.b) / 4))"],
     ))
 
     reg.add_contract(Contract(
         f"{MOD}:BrentsRootFinder.provide_ordinate", property=prop,
         params={"self": "obj:BrentsRootFinder", "abscissa": "real", "ordinate": "real"},
-        requires=["inv(self)", "self.fb != 0",
+        requires=["inv(self)", "self.a != self.b", "implies(self.fb == 0, abscissa == self.b)",
                   "self.next_abscissa is not None", "abscissa == self.next_abscissa",
                   "min(self.a, self.b) <= abscissa", "abscissa <= max(self.a, self.b)"],
         modifies=["self.a", "self.b", "self.fa", "self.fb", "self.current_guess"],
@@ -95,8 +98,7 @@ def register(reg, prop="C19"):
         f"{MOD}:BrentsRootFinder.is_converged", property=prop,
         params={"self": "obj:BrentsRootFinder", "tolerance": "real"},
         requires=[], returns="bool", pure=True,
-        # converged = exact root found, or bracket narrower than the tolerance
-        ensures=["result == (self.fb == 0 or abs(self.b - self.a) < tolerance)"],
+        ensures=["result == (abs(self.b - self.a) < tolerance)"],
     ))
 
     # ---- find_root_brents: f is an arbitrary real function F; every query is checked --------
